@@ -1,6 +1,8 @@
 """C12 — Viewing matrices map the documented volumes and inverse=True really inverts."""
 from fractions import Fraction as Fr
 
+import json
+
 import numpy as np
 
 from common import Kernel, call_impl, coq_list, fl, grid, grid_vec, q, qv
@@ -238,8 +240,39 @@ Qed."""
 
 # ---------------------------------------------------------------------------------------------------------
 def _scale(rng, tier, lo=10):
-    k = 30 if tier == "thorough" else lo
+    # a tenth of the quick cases also use the extreme range
+    k = 30 if (tier == "thorough" or rng.random() < 0.1) else lo
     return 2.0 ** rng.randint(-k, k)
+
+
+def _ivec(rng, lo=-9, hi=9):
+    return [float(rng.randint(lo, hi)) for _ in range(3)]
+
+
+def _int_case(rng, fam):
+    """the same kinds of inputs with integral values, passed as int64 arrays / Python ints"""
+    if fam == "w2v":
+        while True:
+            look, up = _ivec(rng, -6, 6), _ivec(rng, -4, 4)
+            if any(_cross(look, up)):
+                break
+        pos = _ivec(rng, -50, 50)
+        return {"kind": "w2v_ints", "position": pos, "target": [a + b for a, b in zip(pos, look)], "up": up, "ints": True}
+    if fam == "ortho":
+        near = rng.randint(-3, 10)
+        return {"kind": "ortho_ints", "w": float(rng.randint(1, 2000)), "h": float(rng.randint(1, 2000)), "near": float(near),
+                "far": float(near + rng.randint(1, 3000)), "ints": True}
+    if fam == "viewport":
+        xl, yt = rng.choice([0, 0, rng.randint(-50, 50)]), rng.choice([0, 0, rng.randint(-50, 50)])
+        return {"kind": "viewport_ints", "xr": float(xl + rng.choice([-1, 1]) * rng.randint(1, 2000)),
+                "yb": float(yt + rng.choice([-1, 1]) * rng.randint(1, 2000)), "xl": float(xl), "yt": float(yt), "ints": True}
+    while True:
+        look = _ivec(rng, -6, 6)
+        if look[0] or look[2]:
+            break
+    pos = _ivec(rng, -50, 50)
+    return {"kind": "canvas_ints", "w": float(rng.randint(1, 2000)), "h": float(rng.randint(1, 2000)), "position": pos,
+            "target": [a + b for a, b in zip(pos, look)], "zoom": float(rng.randint(1, 8)), "ints": True}
 
 
 def _cross(a, b):
@@ -274,6 +307,9 @@ def gen_cases(rng, n, tier):
     cases = []
     for _ in range(n):
         u, b = rng.random(), rng.random()
+        if rng.random() < 0.18:
+            cases.append(_int_case(rng, "w2v" if u < 0.3 else "ortho" if u < 0.5 else "viewport" if u < 0.7 else "canvas"))
+            continue
         if u < 0.3:
             if b < 0.76:
                 pos, target, up = _camera(rng, tier)
@@ -350,45 +386,71 @@ def run_impl(c):
     from polliwog.transform import (view_to_orthographic_projection, viewport_transform, world_to_canvas_orthographic_projection,
                                     world_to_view)
     kind = _base(c["kind"])
+    ints = bool(c.get("ints"))
+    o = {"repeat_same": True}
 
-    def mat(f):
-        r = call_impl(f)
-        if isinstance(r, dict):
-            return r
+    def arr(v):
+        return np.array(v, dtype=np.int64) if ints else np.array(v, dtype=np.float64)
+
+    def num(x):
+        return int(x) if ints else x
+
+    def mat(f, repeat=True):
+        """call; then (the caller scribbles over the returned matrix and) call again: same answer expected"""
+        try:
+            r = f()
+        except Exception as e:  # noqa
+            return call_impl(lambda: (_ for _ in ()).throw(e))
         r = np.asarray(r)
         if r.shape != (4, 4):
             return {"raise": "OtherError", "msg": "result has shape %r" % (r.shape,)}
-        return [float(x) for x in r.reshape(-1)]
+        first = r.astype(np.float64).copy()
+        if repeat:
+            try:
+                r *= 0
+                r -= 7
+                r2 = np.asarray(f())
+                if not np.array_equal(r2.astype(np.float64), first, equal_nan=True):
+                    o["repeat_same"] = False
+                    o["repeat_detail"] = {"first": first.reshape(-1).tolist(), "second": r2.astype(np.float64).reshape(-1).tolist()}
+            except Exception as e:  # noqa
+                o["repeat_same"] = False
+                o["repeat_detail"] = {"raise": "%s: %s" % (type(e).__name__, e)}
+        return [float(x) for x in first.reshape(-1)]
 
-    o = {}
     with np.errstate(all="ignore"):
         if kind == "w2v":
-            p, t, u = np.array(c["position"]), np.array(c["target"]), np.array(c["up"])
+            p, t, u = arr(c["position"]), arr(c["target"]), arr(c["up"])
             before = [p.copy(), t.copy(), u.copy()]
             o["fwd"] = mat(lambda: world_to_view(p, t, u))
             o["inv"] = mat(lambda: world_to_view(p, t, u, inverse=True))
             o["args_unchanged"] = all(np.array_equal(a, b) for a, b in zip(before, [p, t, u]))
         elif kind == "ortho":
-            a = (c["w"], c["h"], c["near"], c["far"])
+            a = tuple(num(c[k]) for k in ("w", "h", "near", "far"))
             o["fwd"] = mat(lambda: view_to_orthographic_projection(*a))
             o["inv"] = mat(lambda: view_to_orthographic_projection(*a, inverse=True))
         elif kind == "viewport":
-            a = (c["xr"], c["yb"], c["xl"], c["yt"])
+            a = tuple(num(c[k]) for k in ("xr", "yb", "xl", "yt"))
             o["fwd"] = mat(lambda: viewport_transform(*a))
             o["inv"] = mat(lambda: viewport_transform(*a, inverse=True))
         else:
-            p, t = np.array(c["position"]), np.array(c["target"])
+            p, t = arr(c["position"]), arr(c["target"])
             before = [p.copy(), t.copy()]
-            w, h, zoom = c["w"], c["h"], c["zoom"]
+            w, h, zoom = num(c["w"]), num(c["h"]), num(c["zoom"])
             o["fwd"] = mat(lambda: world_to_canvas_orthographic_projection(w, h, p, t, zoom=zoom))
             o["inv"] = mat(lambda: world_to_canvas_orthographic_projection(w, h, p, t, zoom=zoom, inverse=True))
-            o["args_unchanged"] = all(np.array_equal(a, b) for a, b in zip(before, [p, t]))
             # the three stages as the public functions return them (for the composition clause)
             for name, inverse in (("stages_fwd", False), ("stages_inv", True)):
                 o[name] = call_impl(lambda: [
-                    mat(lambda: world_to_view(p, t, inverse=inverse)),
-                    mat(lambda: view_to_orthographic_projection(w / zoom, h / zoom, inverse=inverse)),
-                    mat(lambda: viewport_transform(w, h, inverse=inverse))])
+                    mat(lambda: world_to_view(p, t, inverse=inverse), False),
+                    mat(lambda: view_to_orthographic_projection(w / zoom, h / zoom, inverse=inverse), False),
+                    mat(lambda: viewport_transform(w, h, inverse=inverse), False)])
+            # ... and the composite once more after the stages were called and edited
+            again = mat(lambda: world_to_canvas_orthographic_projection(w, h, p, t, zoom=zoom), False)
+            if not isinstance(again, dict) and not isinstance(o["fwd"], dict) and not np.array_equal(again, o["fwd"], equal_nan=True):
+                o["repeat_same"] = False
+                o["repeat_detail"] = {"first": o["fwd"], "second": again}
+            o["args_unchanged"] = all(np.array_equal(a, b) for a, b in zip(before, [p, t]))
     # the same forward matrix used through the public apply_transform on the points the property talks about
     pts = _probe_points(c)
     if pts and not isinstance(o["fwd"], dict) and all(np.isfinite(o["fwd"])):
@@ -486,6 +548,9 @@ def oracle(c, o):
             return "non-finite entries for inverse=%s" % (d == "inv")
     if o.get("args_unchanged") is False:
         return "argument array was modified"
+    if not o.get("repeat_same", True):
+        return "the same call gave a different answer after the matrix returned first was edited in place: %s" % (
+            json.dumps(o.get("repeat_detail"))[:300])
     f, i = _M(o["fwd"]), _M(o["inv"])
     # apply_transform(matrix)(points) is the homogeneous matrix-vector product (rows 0..2), stacked and single
     pts = _probe_points(c)
